@@ -127,7 +127,7 @@ class C02(core.Prop):
             out.append({'mode': 'mol', 'case': s, 'graph_keys': 'offset'})
         # shared atoms: membership and member graphs as sets (copy-of-template is the subject of C10)
         from .c10 import PROP as C10P
-        sc = [s for s in C10P.shapes(tier) if s.get('mode') != 'coarse' and 'c' not in s['smiles']]
+        sc = [s for s in C10P.shapes(tier) if s.get('mode') != 'coarse']
         for s in sc[::(6 if tier == 'quick' else 10)]:
             out.append({'mode': 'mol', 'case': s, 'shared': True})
         return out
